@@ -11,8 +11,9 @@ What is abstracted
   ICE-CONTROLLING/ICE-CONTROLLED, PRIORITY, USERNAME (never looked at by the C++), and for non-STUN traffic the payload;
 * the local password is never empty (it is generated in `QXmppIcePrivate`), the remote one is empty until set.
 
-`requireMi` is NOT a feature of today's code: it is `false` for the unchanged tree and describes the behaviour with
-/verif/fixes/C15-require-mi.diff applied when `true` (peer messages without MESSAGE-INTEGRITY are dropped).
+Peer messages without a MESSAGE-INTEGRITY attribute are dropped before decoding (`hasMessageIntegrity`, repo commit f41aa68
+"fix: ICE accepts connectivity checks that carry no MESSAGE-INTEGRITY"); before that commit `decode` verified the attribute
+only when present and such messages were processed as authenticated.
 No proofs here.
 -/
 namespace Qx.C15
@@ -119,7 +120,7 @@ structure Cand where
 inductive Out
   | accepted                                   -- decode succeeded ("STUN packet from …" is logged)
   | warnBadMi                                  -- "Bad message integrity"
-  | warnNoMi                                   -- only with the fix: "missing MESSAGE-INTEGRITY"
+  | warnNoMi                                   -- "Dropping STUN packet with missing MESSAGE-INTEGRITY"
   | roleConflict                               -- "Role conflict, expected to be …"
   | bindingResponse (to : Nat) (txid : Nat)    -- Binding success response written to `to`
   | checkSent (to : Nat) (txid : Nat) (useCandidate : Bool)   -- first transmission of a connectivity check
@@ -134,7 +135,6 @@ inductive Out
 structure St where
   controlling : Bool
   component : Nat := 1
-  requireMi : Bool := false
   remoteUserSet : Bool := false
   remotePwSet : Bool := false
   pairs : List Pair := []
@@ -148,8 +148,8 @@ structure St where
   nextTx : Nat := 0
   deriving DecidableEq, Repr
 
-def init (controlling : Bool) (component : Nat := 1) (requireMi : Bool := false) : St :=
-  { controlling := controlling, component := component, requireMi := requireMi }
+def init (controlling : Bool) (component : Nat := 1) : St :=
+  { controlling := controlling, component := component }
 
 def St.prioOf (s : St) (p : Pair) : Nat := pairPriority s.controlling (localPriority s.component) p.rprio
 
@@ -255,7 +255,7 @@ inductive Dec | ok | badMi | silent
   deriving DecidableEq, Repr
 
 def decodeMi (keyRemote : Bool) : Mi → Dec
-  | .absent => .ok                    -- verified only WHEN PRESENT
+  | .absent => .ok                    -- `decode` verifies only WHEN PRESENT (unreachable from `react`: dropped before)
   | .validLocal => if keyRemote then .badMi else .ok
   | .validRemote => if keyRemote then .ok else .badMi
   | .wrongKey => .badMi
@@ -273,7 +273,7 @@ def react (s : St) (d : Datagram) : St × List Out :=
   | .stun m =>
     let keyRemote := m.cls == .response || m.cls == .error
     if keyRemote && !s.remotePwSet then (s, []) else
-    if s.requireMi && m.mi == .absent then (s, [.warnNoMi]) else
+    if m.mi == .absent then (s, [.warnNoMi]) else            -- `!hasMessageIntegrity(buffer)`
     match decodeMi keyRemote m.mi with
     | .badMi => (s, [.warnBadMi])
     | .silent => (s, [])
@@ -368,16 +368,6 @@ def Datagram.unauthenticated (d : Datagram) : Bool :=
   match d.kind with
   | .stun m => m.mi != validFor m.cls
   | .nonStun _ => false
-
-/-- … and that does carry some MESSAGE-INTEGRITY attribute (wrong key, other password, truncated) -/
-def Datagram.forged (d : Datagram) : Bool :=
-  match d.kind with
-  | .stun m => m.mi != validFor m.cls && m.mi != .absent
-  | .nonStun _ => false
-
-def Op.forged : Op → Bool
-  | .dgram d => d.forged
-  | _ => false
 
 def Op.unauthenticated : Op → Bool
   | .dgram d => d.unauthenticated
